@@ -47,7 +47,7 @@ class SeqProp:
 
 class C01(SeqProp):
     id = "C01"
-    stream_kinds = ("str", "Path", "file", "bytesio", "buffered")
+    stream_kinds = ("str", "Path", "file", "bytesio", "buffered", "file", "rwfile", "gzip", "stalename")
     projection_channels = {"class", "cid", "size", "content", "concrete", "locks"}
 
     def weights(self):
